@@ -134,8 +134,10 @@ let () =
             let parsed = match bad with
               | "trunc" | "magic" | "htype" | "hlen" | "nomsgtype" | "opcode" -> None
               | _ -> Some r in
-            let fr = FrDhcp (get m "eth" "bcast" <> "other", bad <> "ipcksum", bad <> "udpcksum",
-                             zip (get m "ipsrc" "10.0.0.1"), zl (get m "sport" "67"), zl (get m "dport" "68"), parsed) in
+            let eth = match get m "eth" "bcast" with "bcast" -> 0 | "own" -> 1 | _ -> 2 in
+            let fr = FrDhcp (z_of_int eth, bad <> "ipcksum", bad <> "udpcksum",
+                             zip (get m "ipsrc" "10.0.0.1"), zip (get m "ipdst" "255.255.255.255"),
+                             zl (get m "sport" "67"), zl (get m "dport" "68"), parsed) in
             st := dhif_enqueue !st fr
         | "arp" :: _ -> st := dhif_enqueue !st (FrArp (zip (get m "spa" "10.0.0.1"), dhif_own_addr !st))
         | "setmaxlease" :: v :: _ ->
